@@ -148,6 +148,97 @@ impl Ctx<'_> {
     }
 }
 
+impl Ctx<'_> {
+    /// unions of many members (up to 64) built member by member with the crate's `|`: still exactly their members, an upper
+    /// bound of each, and below exactly the types all members lie below - however many members there are
+    fn wide_unions(&mut self, rng: &mut Rng, rounds: u64, cfg: &Cfg) {
+        let base = [Ty::Int, Ty::Float, Ty::Str, Ty::Bool, Ty::Void];
+        for r in 0..rounds {
+            if !cfg.owns(r) {
+                continue;
+            }
+            let n = 2 + (r as usize / 4) % 63;
+            // n pairwise different members that all lie below `bound`
+            let shape = r % 4;
+            let mut members: Vec<Ty> = Vec::new();
+            let mut k = 0usize;
+            while members.len() < n {
+                let mut t = base[k % 5].clone();
+                for _ in 0..k / 5 {
+                    t = Ty::arr(t);
+                }
+                let member = match shape {
+                    0 => Ty::arr(t),
+                    1 => Ty::Tup(vec![t, Ty::Int]),
+                    2 => Ty::fun(vec![], t),
+                    _ => t,
+                };
+                members.push(member);
+                k += 1;
+            }
+            let bound = match shape {
+                0 => Ty::arr(Ty::Any),
+                1 => Ty::Tup(vec![Ty::Any, Ty::Int]),
+                2 => Ty::fun(vec![], Ty::Any),
+                _ => Ty::Any,
+            };
+            let wrong_bound = match shape {
+                0 => Ty::arr(Ty::Int),
+                1 => Ty::Tup(vec![Ty::Any, Ty::Str]),
+                2 => Ty::fun(vec![], Ty::Int),
+                _ => Ty::Int,
+            };
+            // shuffled insertion order
+            let mut order: Vec<usize> = (0..n).collect();
+            for i in (1..n).rev() {
+                order.swap(i, rng.below(i + 1));
+            }
+            let mut u = members[order[0]].to_real();
+            let mut built_ok = true;
+            for &i in &order[1..] {
+                let next = members[i].to_real();
+                match real::guarded(|| u.clone() | next) {
+                    Ok(x) => u = x,
+                    Err(_) => {
+                        built_ok = false;
+                        break;
+                    }
+                }
+            }
+            if !built_ok {
+                self.fail("union-build-panic", &[&members[0]], "building a wide union panicked");
+                continue;
+            }
+            self.rep.count("law:wide-union");
+            self.rep.shape("wide_union_sizes", &format!("{}", n / 8 * 8));
+            let tu = Ty::from_real(&u);
+            let want = Ty::union(members.clone());
+            if tu != want {
+                self.fail("wide-union-members", &[&want], &format!("a union built from {n} distinct members is {}", crate::util::truncate(&tu.text(), 200)));
+                continue;
+            }
+            for mt in &members {
+                if !self.matches(&mt.to_real(), &u, mt, &tu) {
+                    self.fail("wide-union-upper-bound", &[mt], &format!("a member does not match the union of {n} members"));
+                    break;
+                }
+            }
+            if !self.matches(&u, &bound.to_real(), &tu, &bound) {
+                self.fail("wide-union-below-bound", &[&bound], &format!("all {n} members match the bound but their union does not"));
+            }
+            if self.matches(&u, &wrong_bound.to_real(), &tu, &wrong_bound) {
+                self.fail("wide-union-below-non-bound", &[&wrong_bound], &format!("the union of {n} members matches a type that some member does not match"));
+            }
+            // the same union written as text and parsed
+            if let Some(parsed) = want.parse_real(r) {
+                if !self.matches(&parsed, &bound.to_real(), &want, &bound) || !self.matches(&u, &parsed, &tu, &want) || !self.matches(&parsed, &u, &want, &tu) {
+                    self.fail("wide-union-parsed", &[&bound], &format!("the union of {n} members read from its text is not equivalent to the one built with |"));
+                }
+            }
+        }
+    }
+}
+
 /// a type that should lie above `t` (by construction from the documented laws)
 fn widen(t: &Ty, rng: &mut Rng, depth: usize) -> Ty {
     match rng.below(6) {
@@ -280,6 +371,10 @@ pub fn run(cfg: &Cfg, rep: &mut Report) {
     }
     ctx.rep.sample("pair", 3, || Obj::new().s("A", &uni[n / 3].text()).s("B", &uni[n / 2].text()).b("A_matches_B", mat[(n / 3) * n + n / 2]).render());
 
+    {
+        let mut wrng = cfg.rng(1010);
+        ctx.wide_unions(&mut wrng, if cfg.thorough() { 63 * 4 * 8 } else { 63 * 4 }, cfg);
+    }
     // semantic soundness on the depth-1 universe: every generated value of A is a value of every B that A matches
     let mut rng = cfg.rng(10);
     let mut vals: Vec<(usize, Variable)> = Vec::new();
